@@ -24,7 +24,7 @@ def expected_groups(xs, keyf):
 class C04(Check):
     ID = 'C04'
     LEVEL = 'exploration'
-    BUDGET = {'quick': 30, 'thorough': 240}
+    BUDGET = {'quick': 75, 'thorough': 240}
     RULE = ('case = (key mapper, stream, parent context, inner pipeline). Key mappers return values that are equal but not identical objects: 1-tuples built per item, '
             'ints > 2^40 computed at run time, float(i%k), strings built with %, and int for even / float for odd items (1 == 1.0: same group), numpy.int64 keys, ints of mixed sign, and DIFFERENT keys whose hashes collide (-1 / -2, multiples of 2**61-1, tuples of those); 1..200 distinct keys (every 60th case 300 or 1000 keys); '
             '0..400 items; group_by at top level, nested in group_by, in roll (key slots reused by successive windows: w != s and w == s), in split, group_by>roll; inner pipeline '
@@ -45,7 +45,7 @@ class C04(Check):
         names = ['top', 'group', 'roll', 'roll_eq', 'split', 'group>roll', 'roll>group', 'top']
         for j in range(k):
             name = names[j % len(names)]
-            nk = rng.choice([1, 2, 3, 5, 8, 40, 200]) if j % 60 != 30 else rng.choice([300, 1000])
+            nk = rng.choice([1, 2, 3, 5, 8, 40, 200]) if j % 60 != 6 else rng.choice([300, 1000])
             n = rng.choice([0, 1, 3, 10, 30, 80, 200, 400]) if nk >= 40 else rng.choice([0, 1, 3, 10, 30, 80])
             if nk >= 300:
                 n = rng.choice([1200, 2500])        # more than 256 groups alive: group indices beyond the small-int cache / first growth block
